@@ -443,6 +443,38 @@ static void et_reset_state(void)
     }                                                       \
   } while (0)
 
+/* ---------- is the machine keeping up? ----------
+ * The three "late" rules of the timers profile compare wall-clock times with a deadline.  On a machine that does not
+ * get round to running a thread that is due, everything is late and none of it is the library's doing.  A thread that
+ * does nothing but sleep 5 ms at a time measures how late IT is woken; if that ever exceeds 80 ms during a case, the
+ * late rules of that case are not evaluated (counted, and the case is reported inconclusive if a rule would have fired). */
+static _Atomic int     et_load_stop;
+static _Atomic int64_t et_load_max_late_ns;
+static void           *et_load_probe(void *arg)
+{
+  (void)arg;
+  while (!atomic_load(&et_load_stop)) {
+    struct timespec ts = { 0, 5 * 1000000L };
+    int64_t         t0 = et_now_ns(), late;
+    nanosleep(&ts, NULL);
+    late = et_now_ns() - t0 - 5 * 1000000LL;
+    if (late > atomic_load(&et_load_max_late_ns)) {
+      atomic_store(&et_load_max_late_ns, late);
+    }
+  }
+  return NULL;
+}
+static int et_machine_kept_up(const char *rule)
+{
+  char nm[96];
+  if (atomic_load(&et_load_max_late_ns) <= 80 * 1000000LL) {
+    return 1;
+  }
+  snprintf(nm, sizeof(nm), "timers.%s.late_but_machine_overloaded", rule);
+  vh_count(nm);
+  return 0;
+}
+
 /* ---------- signals for the library's threads ----------
  * A thread inherits the signal mask of its creator.  SIGUSR1 is unblocked in the main thread while it creates the
  * channel (so the event thread, and every thread that one creates, takes the signal) and blocked there - and so in
@@ -509,7 +541,7 @@ static void et_run_case(const char *profile, uint64_t seed, uint64_t idx)
   vh_rng_t            g;
   struct ares_options o;
   int                 optmask, rc, i, j, leaked;
-  pthread_t           th_resp, th_mon;
+  pthread_t           th_resp, th_mon, th_load;
   char               *doms[2];
   static char         rcpath[200], hpath[200];
   int                 pre_destroy_confchg, nontrivial;
@@ -600,6 +632,9 @@ static void et_run_case(const char *profile, uint64_t seed, uint64_t idx)
   if (et_cfg.signals) {
     et_signals_start();
   }
+  atomic_store(&et_load_stop, 0);
+  atomic_store(&et_load_max_late_ns, 0);
+  __real_pthread_create(&th_load, NULL, et_load_probe, NULL);
   __real_pthread_create(&th_resp, NULL, et_responder, NULL);
   {
     /* the first library thread that sleeps is the event thread of the channel under test */
@@ -687,6 +722,9 @@ static void et_run_case(const char *profile, uint64_t seed, uint64_t idx)
   et_resp_wake[0] = et_resp_wake[1] = -1;
   alarm(0);
   et_signals_stop();
+  atomic_store(&et_load_stop, 1);
+  pthread_join(th_load, NULL);
+  vh_count_n("timers.load_probe.sum_of_case_max_late_ms", (uint64_t)(atomic_load(&et_load_max_late_ns) / 1000000));
 
   /* ---------- monitors ---------- */
   {
@@ -724,7 +762,7 @@ static void et_run_case(const char *profile, uint64_t seed, uint64_t idx)
       } else {
         double gap = (double)(atomic_load(&et_pb_tx_ns[1]) - atomic_load(&et_pb_tx_ns[0])) / 1e6;
         vh_count("timers.backoff.retry_gap_evaluated");
-        if (gap > et_cfg.timeout_ms + 300) {
+        if (gap > et_cfg.timeout_ms + 300 && et_machine_kept_up("backoff")) {
           if (et_backoff_confirming) {
             vh_violation("timer:et:retry-late:busy-backoff",
                          "a request issued while the event thread slept against the deadline of an older query in "
@@ -748,7 +786,7 @@ static void et_run_case(const char *profile, uint64_t seed, uint64_t idx)
                         ? (double)(atomic_load(&et_reqs[p].t_cb) - atomic_load(&et_reqs[p].t_issue)) / 1e6
                         : 6000.0;
         vh_count("timers.busy_traffic.evaluated");
-        if (took > et_cfg.timeout_ms + 400) {
+        if (took > et_cfg.timeout_ms + 400 && et_machine_kept_up("busy_traffic")) {
           if (et_backoff_confirming) {
             vh_violation("timer:et:timeout-late:busy-traffic",
                          "a request to a silent server (1 try, %d ms) was failed %.0f ms after it was issued%s while the event thread was "
@@ -770,7 +808,7 @@ static void et_run_case(const char *profile, uint64_t seed, uint64_t idx)
         double took   = (double)(atomic_load(&et_reqs[p].t_cb) - atomic_load(&et_reqs[p].t_issue)) / 1e6;
         double budget = (double)et_cfg.tries * et_cfg.timeout_ms;
         vh_count("timers.long_timeout.evaluated");
-        if (took > budget + 400) {
+        if (took > budget + 400 && et_machine_kept_up("long_timeout")) {
           if (et_backoff_confirming) {
             vh_violation("timer:et:timeout-late:long-timeout",
                          "a request to a silent server (tries %d x timeout %d ms, no back-off) was failed %.0f ms after it "
